@@ -115,8 +115,19 @@ func runC03(e *core.Env) error {
 				w.step(t, noFault)
 			}
 		}
-		// the source settles and grows past every recorded position
-		w.grow(2 + rr.Intn(3))
+		// the source settles and grows past every recorded position (a replacement chain may be shorter
+		// than what was indexed: until the head passes the recorded position the task cannot see the fork)
+		for guard := 0; guard < 40; guard++ {
+			maxTop := uint64(0)
+			for _, t := range tasks {
+				maxTop = max(maxTop, w.taskTop(t))
+			}
+			if w.head() > maxTop {
+				break
+			}
+			w.grow(1)
+		}
+		w.grow(1 + rr.Intn(3))
 		var oracles []string
 		unwound := strings.Contains(strings.Join(w.ops, "\n"), "|") // cheap proxy; refined below
 		_ = unwound
